@@ -1060,6 +1060,20 @@ def witness_unstreamlined_user(pp):
     return before, after
 
 
+def witness_unstreamlined_user_empty_and(pp):
+    """same finding, reached through DelimitedList(e, max=1) = And([e, And([])]): the EMPTY nested And raises
+    IndexError -> ParseException until streamline flattens it away, so the unstreamlined stop_on never matches"""
+    def mk():
+        e6 = pp.DelimitedList(pp.Word("a", "b"), delim="+", min=1, max=1)
+        return e6, pp.OneOrMore(pp.CharsNotIn("x\n", max=2), stop_on=e6)
+    s = "ab +ab +abb"
+    _, m1 = mk()
+    before = outcome(pp, m1, s)
+    e6, m1 = mk()
+    outcome(pp, e6, "a")
+    return before, outcome(pp, m1, s)
+
+
 def witness_forward_copy(pp):
     """C = F.copy() taken before F is assigned keeps the default whitespace flags"""
     F = pp.Forward()
@@ -1121,6 +1135,9 @@ WITNESSES = [
      "x2 = e + 'd' with e = Literal('a') + (Literal('b') + ...) on 'a b zz d', fresh vs after x1 = e + 'c' was used"),
     ("streamline_changes_unstreamlined_user", witness_unstreamlined_user,
      "R = OneOrMore(Word('za'), stop_on=Y), Y = Literal('a') + (LineStart() + Literal('b')), on 'z a\\nb', before vs after Y.parse_string"),
+    ("streamline_changes_unstreamlined_user", witness_unstreamlined_user_empty_and,
+     "e6 = DelimitedList(Word('a','b'), delim='+', max=1) (= And([e, And([])])); m1 = OneOrMore(CharsNotIn('x\\n', max=2), stop_on=e6) on "
+     "'ab +ab +abb': ['ab',' +','ab',' +','ab','b'] while e6 was never used, ParseException(0) after e6.parse_string('a')"),
     ("forward_copy_before_assignment", witness_forward_copy,
      "F = Forward(); C = F.copy(); F <<= Word('a').leave_whitespace(); F vs C on ' a'"),
     ("streamline_recomputes_saveAsList", witness_savelist,
